@@ -7,6 +7,7 @@ pub mod c10;
 pub mod wiretypes;
 pub mod c11;
 pub mod c13;
+pub mod c14;
 pub mod c17;
 pub mod util;
 
@@ -18,6 +19,7 @@ pub fn dispatch(id: &str, args: &Args) -> Option<Report> {
         "C10" => c10::run(args),
         "C11" => c11::run(args),
         "C13" => c13::run(args),
+        "C14" => c14::run(args),
         "C17" => c17::run(args),
         _ => return None,
     })
